@@ -31,6 +31,8 @@ def main():
                     for m in range(case['max_mut'] + 1):
                         configs += [list(c) for c in coal.sfs._get_configs(n, m)]
                 r['perms'] = [sorted(list(map(int, p)) for p in pg.utils.multiset_permutations(items)) for items in case.get('perm_items', [])]
+                # every multiset is requested a SECOND time in the same process
+                r['perms_again'] = [sorted(list(map(int, p)) for p in pg.utils.multiset_permutations(items)) for items in case.get('perm_items', [])]
                 r['configs'] = configs
                 # the same distribution objects are first asked about OTHER mutation rates (what they return for theta must
                 # not depend on the rates they were asked about before)
